@@ -513,6 +513,240 @@ class C11(SigBase):
 
     def fixed_cases(self):
         return [
+            "Bet;M20;L0:gr0=10 gr1=10x gr2=10xt kr0;H0k0:sg10@0 y;H0g2:gu2;H0g1:gu1;H0g0:gu0",
+            # a signal whose last interest was unregistered while it was pending is delivered with the default disposition
+            # (Sdfl) at the point where iv_signal_event restores the mask, between the clearing of `active` and the handler
+            # (regression of the log parser: the look-ahead for the handler has to pass over such a record)
+            "Bpo;M160;Z11111111111000000000;L0:gr1=14t gr2=14 kr0;H0k0:y sg14@1;L1:gr0=14 gr2=14 gr1=10t kr0;H1k0:sc10 sg10@0;H1g0:gu1/-/-/-",
+            # first interest of the signal deep in the tree: X(12 shared) root, L(10), D(14), R(12 exclusive, sorts before X)
+            "Bet;M40;L0:gr0=12 gr1=10 gr2=14 gr3=12x kr0 tr7+900000000;H0k0:sg12@0 y;H0t7:gu0 gu1 gu2 gu3",
+            "Bet;M40;L0:gr0=12t gr1=10t gr2=14t gr3=12xt kr0 tr7+900000000;H0k0:sg12@0 y sg10@0 y sg14@0 y;H0t7:gu0 gu1 gu2 gu3",
+            "Bet;M20;L0:gr1=10xt gr2=10xt kr0;H0k0:sg10@0 y gu1 gu2;H0g1:gu1;H0g2:gu2",
+            "Bet;M30;Z01010101010101;L0:gr0=10 gr1=12x kr0;L1:gr0=10t gr1=10 kr0;H0k0:sg10@1 sg10@0 y sc10;H1k0:sg12 y;"
+            "H0g0:gu0;H0g1:gu1;H1g0:gu0;H1g1:gu1",
+            # delivery during the handler: it runs again; then unregisters itself
+            "Bet;M20;L0:gr0=10x kr0;H0k0:sg10@0 y;H0g0:sg10@0 y/gu0",
+            # hand-off inside one tree, process-wide exclusives in two threads
+            "Bet;M30;Z0101010101;L0:gr0=10x kr0;L1:gr0=10x tr7+5000000;H0k0:sg10 y gu0;H1g0:gu0;H1t7:gu0",
+            "Bpo;M20;L0:gr0=10 gr1=10 gr2=10x kr0;H0k0:sg10 y gu2 sg10 y;H0g0:gu0;H0g1:gu1",
+            "Bet;Xnoeventfd;M20;L0:gr0=10t gr1=10t gr2=10 kr0;H0k0:sg10@0 y sc10 y;H0g0:gu0 gu1 gu2",
+        ]
+
+    def cases(self, ctx):
+        rng = vlib.rng_for(ctx.seed, "C10")
+        cases = list(self.fixed_cases())
+        self.n_fixed = len(cases)
+        d5 = self.d5_family(rng)
+        self.d5_cases = set(d5)
+        cases += d5
+        trees = self.tree_family(rng, 300 if ctx.tier == "quick" else 6000)
+        self.n_trees = len(trees)
+        cases += trees
+        n = 1400 if ctx.tier == "quick" else 40000
+        for _ in range(n):
+            cases.append(self.gen(rng))
+        self.n_gen = n
+        return cases
+
+    def nontrivial(self, case, log):
+        if not log:
+            return False
+        segs = [s.strip() for s in log.split(" | ")]
+        in_sd, posted, thr_sd = {}, False, set()
+        feature = False
+        in_user = {}
+        in_unreg = {}
+        for s in segs:
+            if ":" not in s:
+                continue
+            t, ev = s.split(":", 1)
+            if ev.startswith("Sd "):
+                in_sd[t] = True
+                thr_sd.add(t)
+                if in_user.get(t):
+                    feature = True
+            elif ev.startswith("Sx "):
+                in_sd[t] = False
+            elif ev.startswith("Fw ") and in_sd.get(t):
+                posted = True
+            elif ev.startswith("Fw ") and in_unreg.get(t):
+                feature = True
+            elif ev.startswith("L s") and in_sd.get(t):
+                feature = True
+            elif ev.startswith("Fc "):
+                feature = True
+            elif ev.startswith("Cg"):
+                in_user[t] = True
+            elif ev.startswith("W") or ev.startswith("Ck") or ev.startswith("Ct"):
+                in_user[t] = False
+            elif ev.startswith("a gu"):
+                in_unreg[t] = True
+            elif ev.startswith("A gu"):
+                in_unreg[t] = False
+        return posted and (feature or len(thr_sd) >= 2)
+
+    def signature(self, case, why):
+        return "c10:" + ("crash" if "CRASH" in why or "sanitizer" in why or "crashed" in why else "monitor")
+
+    def distribution(self, cases):
+        toks = [t for c in cases for s in c.split(";") if ":" in s for t in s.split(":", 1)[1].replace("/", " ").split()]
+        return {"fixed": self.n_fixed, "cross_scope_handoff_family": len(self.d5_cases), "tree_shape_family": self.n_trees, "generated": self.n_gen,
+                "threads": {str(k): sum(1 for c in cases if len(re.findall(r"(?:^|;)[LP]\d:", c)) == k) for k in (1, 2, 3, 4)},
+                "registrations": sum(1 for t in toks if t.startswith("gr")),
+                "by_flags": {f or "shared": sum(1 for t in toks if re.fullmatch(r"gr\d=\d+%s" % f, t)) for f in self.FLAGS},
+                "unregistrations": sum(1 for t in toks if t.startswith("gu")),
+                "raises_directed": sum(1 for t in toks if t.startswith("sg") and "@" in t),
+                "raises_process": sum(1 for t in toks if t.startswith("sg") and "@" not in t),
+                "child_deliveries": sum(1 for t in toks if t.startswith("sc")),
+                "backends": {b: sum(1 for c in cases if c.startswith("B" + b)) for b in ("et", "ep", "pp", "po")}}
+
+
+# ------------------------------------------------------------------------------------------------
+class C11(SigBase):
+    pid = "C11"
+    extract_v = "Extract/ExtractWait.v"
+    model_ml = "wait_model.ml"
+    driver_in = "wait_drv.ml.in"
+    open_module = "Wait_model"
+    coq_targets = ["theories/MT/WaitModel.vo", "theories/MT/WaitProofs.vo",
+                   "theories/Base/CSem.vo", "theories/Gen/LeafWait.vo", "theories/MT/WaitLink.vo"]
+
+    # way (a) of the tie for the key of the interest tree: iv_wait_interest_compare and the two tests of __iv_wait_interest_find are
+    # re-translated from the current source on every run (gen/c2gallina.py -> Gen/LeafWait.v); MT/WaitLink.v ties them to w_pid
+    def sibling_stages(self):
+        # anchors iv_signal.c (SIGCHLD interest, hand-off) and iv_avl.c: the C10 and C16 machinery
+        import c16
+        return [("C10", C10), ("C16", c16.C16)]
+
+    def pre_proof(self, ctx):
+        import leafgen
+        return leafgen.regenerate(["LeafWait.v"])
+
+    def proofs(self, ctx):
+        import leafgen
+        from framework import LineCheck
+        return leafgen.explain(
+            LineCheck.proofs(self, ctx), "WaitLink", "C11_compare_is_the_code (MT/WaitLink.v: leaf_wait_compare / leaf_wait_compare_eq / "
+            "leaf_wait_find_hit / leaf_wait_find_left)",
+            "iv_wait_interest_compare (three-way comparison of ->pid) or a test of __iv_wait_interest_find (`pid == p->pid`, "
+            "`pid < p->pid`) of the current src/iv_wait.c, as translated by gen/c2gallina.py into Gen/LeafWait.v, is not the pid key under "
+            "which MT/WaitModel.v looks interests up (find_pid) any more")
+
+    trusted = [
+        "gen/c2gallina.py (class CTr: clang JSON AST -> Gen/LeafWait.v, rerun on every check) and the C semantics Base/CSem.v: "
+        "iv_wait_interest_compare and the two tests of __iv_wait_interest_find are translated and proved to be the comparison of the pids "
+        "(C11_compare_is_the_code); the iv_container_of initialisers of the locals a, b are not translated",
+        "virtual child processes (harness/mt.c): fork (parent side; the child is scripted), wait4 (returns the scripted status changes, "
+        "first child in creation order that has one), kill, getpid are interposed; SIGCHLD is a virtual signal -- the harness's model of the kernel",
+        "modelled, not verified: the tree iv_wait_interests is the list of registered, not-DEAD interests (C16 covers iv_avl.c); which thread's "
+        "exclusive SIGCHLD interest is woken is C10's business and an oracle here (whatever thread logs the W4 segments); that a posted iv_event "
+        "runs its handler before the thread blocks is C08 (label WBlock)",
+        "OCaml log parser ocaml/wait_drv.ml.in: iv_wait_lock is identified by the W4/Fk/Ki segments it brackets; the steal of a completion is "
+        "attached to the lock/unlock pair that precedes a Ci segment",
+        "D1 (fixed in /repo): the pre-fix dereference is the outcome Crash of reap_one false; the harness always runs children without interest",
+    ]
+    assumptions = [
+        "API contract (harness guards): at most one registered interest per pid; iv_wait_interest_register only for a child whose termination "
+        "has not been reaped; register / unregister / kill from the registering thread",
+        "wait4 reports each status change once and nothing for a pid after its termination was reaped (kernel)",
+    ]
+    rule = ("scenarios = 1-3 loop threads (+ optional plain thread), up to 6 children: strangers (never registered), children registered before / "
+            "after their first status change, children spawned through the library that exit at once or later; status sequences stop / continue / "
+            "exit n / killed by n in any order and from any thread, task, timer or wait handler, SIGCHLD received by any thread; unregistration "
+            "from the handler (own and other interests), from tasks and timers; the kill helper before and after the death; random baton schedules; "
+            "plus the spawn-race family (a second loop thread with an interest, the spawned child exits inside fork, the schedule hands the "
+            "baton to the other thread after 0..47 yield points of the spawner, so also right after the fork). "
+            "non-trivial = at least one status delivered (Ci) and one of: a reap (W4) in a thread other than the interest's, a child without "
+            "interest reaped, >= 2 statuses in one completion, an unregistration inside a wait handler, a spawn whose child changed state inside "
+            "fork, a refused kill; distinct = distinct case text")
+
+    STS = ["s", "c", "e0", "e3", "k9", "k15", "s", "c"]
+
+    def gen(self, rng):
+        nthr = rng.choice([1, 2, 2, 3])
+        be = rng.choice(["et", "et", "ep", "pp", "po"])
+        plain = nthr < 3 and rng.random() < 0.3
+        tot = nthr + (1 if plain else 0)
+        secs = ["B" + be, "M%d" % rng.choice([160, 240]), "Z" + self.sched(rng, tot, rng.choice([0, 30, 80, 160]))]
+        nstr = rng.randint(1, 4)            # children created as strangers: 0..nstr-1; spawned: nstr..5
+
+        def status(c=None):
+            c = rng.randrange(6) if c is None else c
+            s = "cs%d=%s" % (c, rng.choice(self.STS))
+            if rng.random() < 0.4:
+                s += "@%d" % rng.randrange(nthr)
+            return s
+
+        def action(k):
+            r = rng.random()
+            if r < 0.45:
+                return status()
+            if r < 0.55:
+                return "y"
+            if r < 0.68:
+                return "iu%d" % rng.randrange(4)
+            if r < 0.78:
+                return "ik%d=%d" % (rng.randrange(4), rng.choice([15, 9, 10]))
+            if r < 0.90:
+                return "ir%d=%d" % (rng.randrange(4), rng.randrange(nstr))
+            return "is%d=%d%s" % (rng.randrange(4), rng.randint(nstr, 5), rng.choice(["", ".e0", ".k9", ".s", ".e7"]))
+
+        def script(k, nmax=4):
+            return " ".join(action(k) for _ in range(rng.randint(1, nmax)))
+
+        for k in range(nthr):
+            body = []
+            if k == 0:
+                body += ["cn%d" % c for c in range(nstr)]
+                if rng.random() < 0.3:
+                    body.append(status(rng.randrange(nstr)))      # a change before anybody is interested
+            regs = []
+            for j in range(rng.randint(1, 3)):
+                if rng.random() < 0.7:
+                    regs.append("ir%d=%d" % (j, rng.randrange(nstr)))
+                else:
+                    regs.append("is%d=%d%s" % (j, rng.randint(nstr, 5), rng.choice(["", "", ".e0", ".k9", ".s"])))
+            extra = ["kr0"]
+            for tmr in range(rng.randint(0, 2)):
+                extra.append("tr%d+%d" % (tmr, rng.choice([1000, 500000, 2000000])))
+                secs.append("H%dt%d:%s" % (k, tmr, script(k)))
+            if rng.random() < 0.85:
+                extra.append("tr7+900000000")
+                secs.append("H%dt7:%s" % (k, " ".join("iu%d" % j for j in range(4))))
+            rest = regs + extra
+            rng.shuffle(rest)
+            secs.append("L%d:%s" % (k, " ".join(body + rest)))
+            secs.append("H%dk0:%s" % (k, script(k, 6)))
+            for j in range(4):
+                if rng.random() < 0.6:
+                    lists = [script(k, 3) if rng.random() < 0.6 else "-" for _ in range(rng.randint(1, 4))]
+                    secs.append("H%di%d:%s" % (k, j, "/".join(lists)))
+        if plain:
+            secs.append("P%d:%s" % (nthr, " ".join(rng.choice([status(), status(), "y"]) for _ in range(rng.randint(2, 8)))))
+        return ";".join(secs)
+
+    def gen_fork_overlap(self, rng):
+        """two loop threads that spawn children (fork with the library's atfork handlers) at the same time, under
+        schedules that switch threads at every lock / unlock: the save / restore of the signal mask around fork is
+        per thread (harness rule of mt.c: fork returns with the caller's mask unchanged; the threads' masks differ)"""
+        be = rng.choice(["et", "et", "ep", "pp"])
+        z = "".join(rng.choice("01") for _ in range(rng.choice([120, 200, 300])))
+        if rng.random() < 0.5:
+            z = "01" * rng.randint(20, 100) + z
+        secs = ["B" + be, "M160", "Z" + z]
+        kids = [1, 2, 3, 4, 5]
+        rng.shuffle(kids)
+        a, b = kids[:rng.randint(1, 3)], kids[3:]
+        end = rng.choice(["", ".e0", ".k9"])
+        secs.append("L0:cn0 " + " ".join("is%d=%d%s" % (j, c, end) for j, c in enumerate(a)) + " kr0 tr7+900000000")
+        secs.append("L1:" + " ".join("is%d=%d%s" % (j, c, end) for j, c in enumerate(b)) + " kr0 tr7+900000000")
+        for k in (0, 1):
+            secs.append("H%dt7:%s" % (k, " ".join("iu%d" % j for j in range(4))))
+            secs.append("H%dk0:%s" % (k, rng.choice(["y", "cs%d=e0" % rng.choice(kids), "y y"])))
+        return ";".join(secs)
+
+    def fixed_cases(self):
+        return [
             "Bet;M30;L0:cn0 cn1 ir0=0 kr0;H0k0:cs1=e3 cs0=s cs0=c cs0=k9;H0i0:-/-/iu0",
             # D1 shape: a stranger terminates while an interest for another child is registered
             "Bet;M30;L0:cn0 cn1 ir0=0 kr0 tr7+5000000;H0k0:cs1=k9;H0t7:iu0",
